@@ -279,11 +279,13 @@ fn run_skins(ctx: &mut Ctx) {
         let ni = if old && !tiny_old { (count(rng) + 2) * 3 } else if tiny_old { rng.below(2) as usize * 3 } else { count(rng) * 3 };
         let indices: Vec<u16> = (0..ni).map(|_| rng.below(400) as u16).collect();
         let triangles: Vec<u16> = (0..count(rng) * 3).map(|_| rng.below(ni.max(1) as u64) as u16).collect();
-        let bone_indices: Vec<u8> = (0..ni * 4).map(|_| rng.below(40) as u8).collect();
+        // the bone-index table has its own length (whole 4-byte entries): one case in three it differs from the vertex lookup's
+        let nb = if k % 3 == 1 { *rng.pick(&[0usize, 1, ni / 2, ni + 1, ni + 3, 2 * ni + 1]) } else { ni };
+        let bone_indices: Vec<u8> = (0..nb * 4).map(|_| rng.below(40) as u8).collect();
         let submeshes: Vec<SkinSubmesh> = (0..count(rng)).map(|i| SkinSubmesh { id: i as u16, level: 0, vertex_start: 0, vertex_count: ni as u16, triangle_start: 0, triangle_count: triangles.len() as u16, bone_count: rng.below(9) as u16, bone_start: rng.below(9) as u16, bone_influence: rng.below(5) as u16, center: [f(rng), f(rng), f(rng)], sort_center: [f(rng), f(rng), f(rng)], bounding_radius: f(rng) }).collect();
         let batches: Vec<SkinBatch> = (0..count(rng)).map(|_| SkinBatch { flags: rng.below(32) as u8, priority_plane: rng.below(5) as i8, shader_id: rng.below(9) as u16, skin_section_index: 0, geoset_index: 0, color_index: 0xFFFF, material_index: rng.below(4) as u16, material_layer: 0, texture_count: 1, texture_combo_index: rng.below(4) as u16, texture_coord_combo_index: 0, texture_weight_combo_index: 0, texture_transform_combo_index: 0xFFFF }).collect();
         let file = if old { SkinFile::Old(OldSkin { header: OldSkinHeader::new(), indices, triangles, bone_indices, submeshes, batches }) } else { SkinFile::New(Skin { header: SkinHeader::new(ver), indices, triangles, bone_indices, submeshes, batches }) };
-        let desc = format!("skin {} {ver:?} indices={} triangles={} submeshes={} batches={}", if old { "old" } else { "new" }, file.indices().len(), file.triangles().len(), file.submeshes().len(), file.batches().len());
+        let desc = format!("skin {} {ver:?} indices={} triangles={} bone_entries={} submeshes={} batches={}", if old { "old" } else { "new" }, file.indices().len(), file.triangles().len(), file.bone_indices().len() / 4, file.submeshes().len(), file.batches().len());
         ctx.out.stat(if old { "c13.skin.old" } else { "c13.skin.new" });
         let wr = |f: &SkinFile| -> Result<Vec<u8>, String> { let f = f.clone(); match std::panic::catch_unwind(move || { let mut c = Cursor::new(Vec::new()); f.write(&mut c).map(|_| c.into_inner()) }) { Ok(Ok(b)) => Ok(b), Ok(Err(e)) => Err(e.to_string()), Err(_) => Err("writer panics".into()) } };
         let bytes = match wr(&file) { Ok(b) => b, Err(e) => { ctx.out.oracle(false, "skin-write-fails", &format!("{e} :: {desc}")); continue; } };
